@@ -84,6 +84,11 @@ def getAttr (defaults attrs : List (String × PyVal)) (n : String) : PyVal :=
   | some v => v
   | none => (lookup n defaults).getD .none
 
+/-- a ClassReference to a class without an installed `serialize` (not FastSerializable) -/
+def nonFastRef (NF : List String) : FieldDecl → Bool
+  | .struct c _ _ => !c.inline && NF.contains c.name
+  | _ => false
+
 def attrsOf : PyVal → List (String × PyVal)
   | .inst _ attrs => attrs
   | _ => []
@@ -100,11 +105,15 @@ def fser (Mp : MapEnv) (NF : List String) : FieldDecl → PyVal → R PyVal
   | .enumLit _, v => .ok v
   | .enumCls _ _, v => fEnumName v
   | .seqOf .list item _, v =>
-    if isNumOrStr item then .ok v else fList (mapE (fser Mp NF item)) v
+    if isNumOrStr item then .ok v
+    else if nonFastRef NF item then .error (.other "AttributeError")     -- `items._ty.serialize`
+    else fList (mapE (fser Mp NF item)) v
   | .seqOf .deque item _, v => fList (mapE (fser Mp NF item)) v
   | .seqPos _ items _ _, v => fList (fserZip Mp NF items) v
   | .seqAny _ _, v => .ok v
-  | .setOf _ item _, v => fList (mapE (fser Mp NF item)) v
+  | .setOf _ item _, v =>
+    if nonFastRef NF item then .error (.other "AttributeError")
+    else fList (mapE (fser Mp NF item)) v
   | .setAny _ _, v => fList (fun xs => .ok xs) v
   | .tupleOf item _, v =>
     -- `Tuple[X]` keeps `items = [X]` and indexes it by position
